@@ -20,6 +20,7 @@ EXTENDS Integers, Sequences, FiniteSets, TLC
 
 CONSTANTS MaxId,      \* max_request_id: ids are 0..MaxId, at most MaxId may be in flight
           InitFree,   \* harness only: size the real id deque is shrunk to, so that its on-demand growth is exercised
+          BadAnswers, \* TRUE: the node may send an undecodable body or a protocol-error frame (process_msg defuncts)
           AnyId,      \* TRUE: get_request_id may hand out ANY available id (all the property says; used when recorded
                       \* runs are validated).  FALSE: the least available id - a symmetry reduction for the exhaustive
                       \* runs (no action looks at the numeric value of an id), replayed modulo a renaming of ids
@@ -157,6 +158,32 @@ Respond(id, q) ==
     /\ avail' = avail \cup {id}
     /\ UNCHANGED <<ph, rid, errs, cps, pages, cperr, defunct, closed, writable>>
 
+(* process_msg for an answer the connection cannot accept (whole callback, loop thread).  "RespondCorrupt": the  *)
+(* body cannot be decoded - the request's handler (already taken out of _requests) is called with the decode   *)
+(* error, then defunct() fails every OTHER registered handler; the stream id is not recycled (return).        *)
+(* "RespondProtoError": an ERROR frame carrying a protocol error - defunct() first (the others get their       *)
+(* connection error), then the request's handler is called with the error, then the id goes back.             *)
+(* Either way every outstanding handler runs exactly once.  A late answer (handler gone after a timeout) is   *)
+(* not decoded at all and is an ordinary RespondLate.                                                          *)
+RespondBad(id, q, kind) ==
+    /\ BadAnswers
+    /\ <<id, q>> \in srv
+    /\ q \notin CPReqs
+    /\ ~Dead
+    /\ id \in DOMAIN reqs
+    /\ LET r == reqs[id]
+           others == Range(Drop(reqs, id)) IN
+       /\ errs' = [x \in Reqs |-> IF x = r \/ x \in others THEN errs[x] + 1 ELSE errs[x]]
+       /\ st' = [x \in Reqs |-> IF x = r THEN "failed" ELSE IF x \in others THEN "errored" ELSE st[x]]
+       /\ inflight' = inflight - Cardinality(others) - 1
+       /\ act' = A(kind, r, id)
+    /\ cperr' = [x \in Reqs |-> IF x \in Range(cps) THEN cperr[x] + 1 ELSE cperr[x]]       \* defunct: error_all_cp_sessions
+    /\ reqs' = <<>>
+    /\ srv' = {}
+    /\ avail' = IF kind = "RespondProtoError" THEN avail \cup {id} ELSE avail
+    /\ defunct' = TRUE /\ closed' = TRUE
+    /\ UNCHANGED <<orphans, ph, rid, got, cps, pages, writable>>
+
 (* Continuous paging (DSE): the node streams several pages on the request's stream.  The first page goes *)
 (* to the request's handler, which returns the connection to the pool (in_flight -= 1) and registers a   *)
 (* ContinuousPagingSession that owns the stream from then on; later pages go to the session.  The id is  *)
@@ -237,6 +264,7 @@ Close       == FailAll("Close", CloseFailsSessions) /\ closed' = TRUE /\ UNCHANG
 Next ==
     \/ \E r \in Reqs : Borrow(r) \/ Send(r) \/ Push(r) \/ Timeout(r) \/ TimeoutStale(r)
     \/ \E id \in Ids, q \in Reqs : Respond(id, q)
+    \/ \E id \in Ids, q \in Reqs, kind \in {"RespondCorrupt", "RespondProtoError"} : RespondBad(id, q, kind)
     \/ \E id \in Ids, q \in Reqs, last \in BOOLEAN : RespondPage(id, q, last)
     \/ SocketError
     \/ Close
@@ -283,7 +311,7 @@ Recycled == (Quiescent /\ ~Dead) => /\ inflight = 0
 FailedOnce == \A r \in Reqs : errs[r] <= 1 /\ cperr[r] <= 1
 AllFailed  == Dead => /\ reqs = <<>>
                       /\ \A r \in Reqs : st[r] \notin {"sending", "sent"}
-                      /\ \A r \in Reqs : st[r] = "errored" <=> errs[r] = 1
+                      /\ \A r \in Reqs : st[r] \in {"errored", "failed"} <=> errs[r] = 1
                       /\ (defunct \/ CloseFailsSessions) => \A r \in Range(cps) : cperr[r] = 1   \* open paging sessions too
 NothingAfterDeath == [][Dead => got' = got /\ pages' = pages]_vars
 SendRefusedWhenDead == [][\A r \in Reqs : (Dead /\ st[r] = "borrowed" /\ st'[r] # "borrowed") => st'[r] = "refused"]_vars
@@ -298,4 +326,5 @@ Witness_FailWhileEncoding == ~(\E r \in Reqs : ph[r] = "encode" /\ st[r] = "erro
 Witness_StaleTimeout == act.name # "TimeoutStale"
 Witness_Busy == ~(\E r \in Reqs : st[r] = "refused" /\ ~Dead)
 Witness_Refused == \A r \in Reqs : st[r] # "refused"
+Witness_BadAnswerWithOthersPending == ~(\E r \in Reqs : st[r] = "failed" /\ \E x \in Reqs : st[x] = "errored")
 =============================================================================
